@@ -83,7 +83,9 @@ class World:
                 cls = Set if d['coll'] else (Required if d['req'] else Optional)
                 kw = {'reverse': rname}
                 if d['opt_casc'] is not None: kw['cascade_delete'] = d['opt_casc']
-                if d.get('column'): kw['column'] = 'c_' + name
+                if d.get('column'):
+                    if (schema.get('cpk') or [False] * nent)[other['ent']]: kw['columns'] = ['c_%s_1' % name, 'c_%s_2' % name]
+                    else: kw['column'] = 'c_' + name
                 attr = cls('E%d' % other['ent'], **kw)
                 dicts[d['ent']][name] = attr
                 self.attrs[(i, sn == 'b')] = attr
@@ -1010,7 +1012,61 @@ R_BULK_CPK = {    # regression input: bulk delete of parents with a composite pr
 WITNESSES = [('stub-delete-stale-collection', W_STUB), ('cascade-cycle-one-to-one', W_CYCLE_O2O), ('cascade-cycle-self-parent', W_CYCLE_SELF), ('required-one-to-one-cascade', W_REQ_O2O)]
 
 
+def polymorphic_stub_witness(ctx):
+    """inheritance is outside the random schemas; one directed family: the cascade target is known to the session by primary key
+    only and as its BASE class (the owner holds the column), its real class is a subclass with a collection of its own.
+    Oracle (as everywhere): a successful delete marks exactly the closure, a Required dependent without cascade makes it refuse
+    with no change, the committed rows are the prescribed ones."""
+    for item_req, casc in [(True, None), (False, None), (True, False)]:
+        db = Database()
+        Owner = type('Owner', (db.Entity,), {'a': Optional('A', cascade_delete=True, column='a_id')})
+        A = type('A', (db.Entity,), {'owner': Optional('Owner')})
+        B = type('B', (A,), {'items': Set('Item') if casc is None else Set('Item', cascade_delete=casc)})
+        log = []
+        Item = type('Item', (db.Entity,), {'b': (Required if item_req else Optional)('B'), 'before_delete': lambda self: log.append(self.id)})
+        db.bind('sqlite', ':memory:'); db.generate_mapping(create_tables=True)
+        inp = {'entities': "Owner.a=Optional('A',cascade_delete=True,column='a_id'); A.owner=Optional(Owner); B(A).items=Set('Item'%s); Item.b=%s(B)"
+                           % ('' if casc is None else ',cascade_delete=%s' % casc, 'Required' if item_req else 'Optional'),
+               'history': 'session 1: b=B(); Owner(a=b); Item(b=b); session 2: item=Item[1] is NOT touched; Owner[1].delete(); Item[1]; commit'}
+        ctx.case({'witness': 'polymorphic-stub', 'item_req': item_req, 'casc': casc}, nontrivial=True, kind='witness')
+        with db_session:
+            b = B(); Owner(a=b); Item(b=b)
+        err = cerr = None; item_status = None
+        try:
+            with db_session:
+                o = Owner[1]
+                try: o.delete()
+                except Exception as e: err = type(e).__name__
+                if err is None:
+                    cache = db._get_cache()
+                    known = [x for x in cache.objects if isinstance(x, Item)]
+                    if not known:
+                        with cache.flush_disabled(): known = [x for x in [Item.get(id=1)] if x is not None]
+                    item_status = known[0]._status_ if known else None
+                try: commit()
+                except Exception as e:
+                    cerr = type(e).__name__; rollback()
+        except Exception as e: cerr = cerr or type(e).__name__
+        with db_session:
+            con = db.get_connection()
+            rows = {t: con.execute('select count(*) from "%s"' % t).fetchone()[0] for t in ('Owner', 'A', 'Item')}
+            rollback()
+        db.disconnect()
+        must_refuse = item_req and casc is False
+        obs = {'delete': err or 'ok', 'commit': cerr or 'ok', 'Item status in the session after the delete': item_status, 'before_delete hook calls': log, 'rows': rows}
+        if must_refuse: bad = err != 'ConstraintError' or rows != {'Owner': 1, 'A': 1, 'Item': 1}
+        elif item_req: bad = err or cerr or item_status not in DEL or log != [1] or rows != {'Owner': 0, 'A': 0, 'Item': 0}
+        else: bad = err or cerr or rows != {'Owner': 0, 'A': 0, 'Item': 1}
+        ctx.count('witness:polymorphic-stub:%s' % ('VIOLATES' if bad else 'ok'))
+        if bad:
+            ctx.violation('deleting an object known by primary key only does not load its real (sub)class: the relationships the subclass declares are '
+                          'skipped (dependents not deleted in the session, hooks not run, a required dependent without cascade is not refused)',
+                          inp, observed=obs, expected='the closure over the real class is deleted in the session / ConstraintError and no change',
+                          key='polymorphic-stub-delete-skips-subclass-relationships')
+
+
 def witnesses(ctx):
+    polymorphic_stub_witness(ctx)
     for name, wi in REGRESSIONS:
         ctx.case({'regression': name}, nontrivial=True, kind='regression')
         v = check_history(ctx, wi['schema'], wi['prog'], wi['plan'])
@@ -1056,7 +1112,7 @@ def run(ctx):
             ctx.case({'refusal-family': schema, 'plan': plan}, nontrivial=True, kind='refusal-family')
             try:
                 v = check_history(ctx, schema, prog, plan)
-            except (TypeError, core.ERDiagramError) as e:
+            except (TypeError, core.ERDiagramError, core.MappingError) as e:
                 ctx.count('schema-rejected:' + type(e).__name__); continue
             if v is not None: report(ctx, schema, prog, plan, v)
             continue
